@@ -63,11 +63,11 @@ mutual
     | .seq es, ko, pd, pmk, st => by
       simpa only [compile] using compileSeq_jumps_sub env env' ha es ko pd pmk st
     | .peekFor e, ko, pd, pmk, st => by
-      have h := compile_jumps_sub env env' ha e ko pd pmk ⟨st.label + 1, st.sw⟩
+      have h := compile_jumps_sub env env' ha e ko false false ⟨st.label + 1, st.sw⟩
       simp only [compile, jumps_append]
       sub_close
     | .peekNot e, ko, pd, pmk, st => by
-      have h := compile_jumps_sub env env' ha e st.label pd pmk ⟨st.label + 1, st.sw⟩
+      have h := compile_jumps_sub env env' ha e st.label false false ⟨st.label + 1, st.sw⟩
       simp only [compile, jumps_append, jumps_lbl]
       sub_close
     | .query e, ko, pd, pmk, st => by
@@ -75,7 +75,7 @@ mutual
       simp only [compile, jumps_append, jumps_lbl]
       sub_close
     | .star e, ko, pd, pmk, st => by
-      have h := compile_jumps_sub env env' ha e (st.label + 1) pd pmk ⟨st.label + 2, st.sw⟩
+      have h := compile_jumps_sub env env' ha e (st.label + 1) false false ⟨st.label + 2, st.sw⟩
       simp only [compile, jumps_append, jumps_lbl]
       sub_close
     | .plus e, ko, pd, pmk, st => by
